@@ -56,7 +56,7 @@ pub const KNOWN: &[(&str, &str, &str)] = &[
     ("K1", "conv=1 pfx=p is=h :: .a :host{color:red}", "`:host` that is not the FIRST token of the prelude (`.a :host{}`, `.a, :host{}`) is not recognised: the rule stays in the normal output and no warning is reported, although the property drops every `:host` combination with a warning"),
 ];
 
-const BOUND: &str = "12 configurations x { A: all sequences of <= 4 rules from 10 pieces at depth 0 and of <= 3 inside one at-rule chain of depth 1, 2, 3; B: all well-nested strings of <= 7 symbols over {:host rule, ordinary rule, :host combination, open at-rule, close} with depth <= 3, spellings rotating through 3/6/5 rule spellings and 6 at-rule preludes; C: all sequences of <= 2 from 22 pieces (the 10 plus 12 probes) under 4 wrappers }";
+const BOUND: &str = "12 configurations x { A: all sequences of <= 4 rules from 10 pieces at depth 0 and of <= 3 inside one at-rule chain of depth 1, 2, 3; B: all well-nested strings of <= 7 symbols over {:host rule, ordinary rule, :host combination, open at-rule, close} with depth <= 3, spellings rotating through 3/7/5 rule spellings (one ordinary rule with non-ASCII content) and 6 at-rule preludes; C: all sequences of <= 2 from 22 pieces (the 10 plus 12 probes) under 4 wrappers }";
 
 // ---------------------------------------------------------------- canonical token lists
 #[derive(Clone, Copy, PartialEq)]
@@ -354,7 +354,7 @@ fn check(cfg: &Cfg, css: &str, strict: bool) -> Option<(String, String)> {
 // ---------------------------------------------------------------- generators
 // `{N}` is replaced by the position of the rule in the sheet, so that all rules of a sheet are distinct
 const HOSTS: &[&str] = &[":host{width:2rpx;order:{N}}", ":host {margin:calc(1rpx + 2px) 75rpx;order:{N}}", "\n:host\n{ order:{N}; top:-15rpx }"];
-const ORDS: &[&str] = &[".a{width:1rpx;order:{N}}", ".a .b>#x{height:3rpx;order:{N}}", "view{color:blue;order:{N}}", ":root{--w:4rpx;order:{N}}", "#x:hover , .c.d{order:{N};min-width:min(7.5rpx, 1px)}", ":host-context(.d) .e{left:1rpx;order:{N}}"];
+const ORDS: &[&str] = &[".a{width:1rpx;order:{N}}", ".a .b>#x{height:3rpx;order:{N}}", "view{color:blue;order:{N}}", ":root{--w:4rpx;order:{N}}", "#x:hover , .c.d{order:{N};min-width:min(7.5rpx, 1px)}", ":host-context(.d) .e{left:1rpx;order:{N}}", ".u{content:\"\u{2192}\u{5b57}\u{1F600}\";order:{N}}"];
 const COMBOS: &[&str] = &[":host .a{color:red;order:{N}}", ":host(.x){top:1rpx;order:{N}}", ":host, .a{left:1rpx;order:{N}}", ":host:hover{color:pink;order:{N}}", ":host>.a{order:{N}}"];
 const WRAPS: &[&str] = &["@media (min-width:1rpx)", "@supports (color:red)", "@layer x", "@container n (min-width:2rpx)", "@supports selector(.c .d)", "@media screen and (max-width:calc(10rpx + 1px))", "@starting-style", "@scope (.c) to (.d)", "@document url(x)", "@STARTING-STYLE"];
 /// the 10 pieces of family A
